@@ -1,8 +1,43 @@
 """entry point: python3-vt -m props.run <property-id>"""
 import importlib
+import io
+import json
 import os
 import sys
+import tempfile
 import traceback
+from contextlib import redirect_stdout
+
+
+def generic_replay(mod, pid, path):
+    """--replay <file>: print what the replay file recorded (obligation, solver model, native input / observation), then
+    re-run the property's check on the current tree and say whether the same obligation is violated again.
+    exit 1: reproduced (VIOLATION line printed), exit 0: the obligation holds on the current tree."""
+    info = json.load(open(path))
+    ob = info.get('obligation', '?')
+    print('REPLAY property=%s obligation=%s' % (pid, ob))
+    nr = info.get('native_replay') or {}
+    for k in ('input', 'observed', 'expected', 'violated_clause', 'ran', 'output'):
+        if k in nr:
+            print('  recorded %s: %s' % (k, str(nr[k])[:600]))
+    if info.get('solver_model') and not nr:
+        print('  recorded solver model: %s' % str(info['solver_model'])[:600])
+    os.environ['VERIF_EVIDENCE_DIR'] = tempfile.mkdtemp(prefix='replay_ev_', dir='/dev/shm')      # never touch the committed evidence
+    import vlib.report as report
+    report.EVID = os.environ['VERIF_EVIDENCE_DIR']
+    buf = io.StringIO()
+    with redirect_stdout(buf):
+        code = mod.main()
+    out = buf.getvalue()
+    norm = report.norm_name(ob)
+    again = [l for l in out.splitlines() if l.startswith('VIOLATION') and ('obligation=%s ' % norm in l + ' ' or norm in l)]
+    if again:
+        print(again[0])
+        print('REPLAY: reproduced on the current tree')
+        return 1
+    print(out.strip().splitlines()[-1] if out.strip() else '')
+    print('REPLAY: not reproduced - the recorded obligation holds on the current tree (check exit %s)' % code)
+    return 0
 
 
 def main():
@@ -10,7 +45,7 @@ def main():
     try:
         mod = importlib.import_module('props.' + pid)
         if os.environ.get('VERIF_REPLAY'):
-            code = mod.replay(os.environ['VERIF_REPLAY'])
+            code = mod.replay(os.environ['VERIF_REPLAY']) if hasattr(mod, 'replay') else generic_replay(mod, pid, os.environ['VERIF_REPLAY'])
         else:
             code = mod.main()
     except SystemExit:
